@@ -48,6 +48,7 @@ Refines == Leaf /\ Rule(v_a, v_b) \in C04Rules => (Agrees(Rule(v_a, v_b), MRule(
 Symmetric == Leaf /\ v_a # <<>> /\ v_b # <<>> =>
      \/ Rule(v_a, v_b) = Rule(v_b, v_a)
      \/ "nounit_rad" \in {Rule(v_a, v_b), Rule(v_b, v_a)}
+     \/ Fold(v_a) # v_a \/ Fold(v_b) # v_b            \* only a SOURCE is folded to a bare number, a target text is not
      \/ {Rule(v_a, v_b), Rule(v_b, v_a)} \subseteq {"log:log_lin", "log:lin_log", "log:log_ratio", "log:ratio_log", "log:b_np", "log:np_b", "log:log_same", "log:log_offset"}
 \* table source: the fast single-unit rule is the general rule; linear is an equivalence; inverse o inverse = linear
 Composition ==
@@ -75,7 +76,7 @@ SideJson(A) == [k \in 1..Len(A) |-> [p |-> IdP(A[k][1]), u |-> IdU(A[k][1]), e |
 Record ==
   LET r == Rule(v_a, v_b)  m == MRule(v_a, v_b) IN
   [id |-> v_idx, a |-> Join(Render(v_a)), b |-> Join(Render(v_b)), sa |-> SideJson(v_a), sb |-> SideJson(v_b),
-   rule |-> r, mrule |-> m, expect |-> ExpectTerm(r, v_a, v_b), expect_qt |-> QTargetTerm(r, v_a, v_b), inter |-> InterTerm(v_a),
+   rule |-> r, mrule |-> m, back |-> IF v_a = <<>> THEN "none" ELSE Rule(v_b, v_a), expect |-> ExpectTerm(r, v_a, v_b), expect_qt |-> QTargetTerm(r, v_a, v_b), inter |-> InterTerm(v_a),
    tags |-> ConvTags(v_a, v_b), known |-> ConvTags(v_a, v_b) \cap KnownDevs # {}, agrees |-> Agrees(r, m)]
 Header == [magnitudes |-> Magnitudes, array |-> ArrayMags, zeros |-> ZeroMags, zeroarray |-> ZeroArray, kinds |-> MagKinds,
            target_mags |-> TargetMags, uncertainties |-> Uncertainties]
